@@ -17,7 +17,7 @@ func (c11) Technique() string {
 }
 func (c11) Runs(tier string) int {
 	if tier == "thorough" {
-		return 1000000
+		return 900000
 	}
 	return 60000
 }
